@@ -1046,6 +1046,15 @@ def check_shared_class_state(ctx: Check, tree: Tree) -> None:
             mutable = isinstance(value, (ast.Dict, ast.List, ast.Set, ast.DictComp, ast.ListComp, ast.SetComp)) or (
                 isinstance(value, ast.Call) and unparse(value.func).split(".")[-1] in {"dict", "list", "set", "defaultdict", "OrderedDict", "deque", "Counter"}
             )
+            if not mutable and isinstance(value, ast.Call) and unparse(value.func).split(".")[-1] in {"field", "ib", "attrib"}:
+                # attrs: field(default=<mutable>) is the same single object as `x: dict = {}` (field(factory=dict) /
+                # default=Factory(dict) is the per-instance spelling)
+                for kw in value.keywords:
+                    if kw.arg == "default":
+                        d = kw.value
+                        mutable = isinstance(d, (ast.Dict, ast.List, ast.Set, ast.DictComp, ast.ListComp, ast.SetComp)) or (
+                            isinstance(d, ast.Call) and unparse(d.func).split(".")[-1] in {"dict", "list", "set", "defaultdict", "OrderedDict", "deque", "Counter"}
+                        )
             if mutable and not is_attrs:
                 shared[target] = st
         if not shared:
